@@ -1,0 +1,139 @@
+/*
+ * DMNTK - Decision Model and Notation Toolkit
+ *
+ * MIT license
+ *
+ * Copyright (c) 2018-2022 Dariusz Depta Engos Software
+ *
+ * THE SOFTWARE IS PROVIDED "AS IS", WITHOUT WARRANTY OF ANY KIND, EXPRESS OR
+ * IMPLIED, INCLUDING BUT NOT LIMITED TO THE WARRANTIES OF MERCHANTABILITY,
+ * FITNESS FOR A PARTICULAR PURPOSE AND NONINFRINGEMENT. IN NO EVENT SHALL THE
+ * AUTHORS OR COPYRIGHT HOLDERS BE LIABLE FOR ANY CLAIM, DAMAGES OR OTHER
+ * LIABILITY, WHETHER IN AN ACTION OF CONTRACT, TORT OR OTHERWISE, ARISING FROM,
+ * OUT OF OR IN CONNECTION WITH THE SOFTWARE OR THE USE OR OTHER DEALINGS IN THE
+ * SOFTWARE.
+ *
+ * Apache license, Version 2.0
+ *
+ * Copyright (c) 2018-2022 Dariusz Depta Engos Software
+ *
+ * Licensed under the Apache License, Version 2.0 (the "License");
+ * you may not use this file except in compliance with the License.
+ * You may obtain a copy of the License at
+ *
+ *     http://www.apache.org/licenses/LICENSE-2.0
+ *
+ * Unless required by applicable law or agreed to in writing, software
+ * distributed under the License is distributed on an "AS IS" BASIS,
+ * WITHOUT WARRANTIES OR CONDITIONS OF ANY KIND, either express or implied.
+ * See the License for the specific language governing permissions and
+ * limitations under the License.
+ */
+
+//! Rejects models whose requirements or item definitions depend on themselves.
+//!
+//! Evaluators follow information requirements, knowledge requirements, the decisions
+//! of a decision service and type references recursively, so a cycle would never end.
+
+use crate::errors::*;
+use dmntk_common::Result;
+use dmntk_model::model::{Definitions, DmnElement, Expression, ItemDefinition, NamedElement};
+use std::collections::HashMap;
+
+/// Checks that no decision, business knowledge model or decision service requires itself
+/// (directly or through other elements), and that no item definition refers to itself.
+pub fn check_cyclic_dependencies(definitions: &Definitions) -> Result<()> {
+  // requirements between decisions, business knowledge models and decision services, by identifier
+  let mut requirements: HashMap<&str, Vec<&str>> = HashMap::new();
+  for decision in definitions.decisions() {
+    if let Some(id) = decision.id() {
+      let required = requirements.entry(id.as_str()).or_default();
+      for information_requirement in decision.information_requirements() {
+        if let Some(href) = information_requirement.required_decision() {
+          required.push(href.into());
+        }
+      }
+      for knowledge_requirement in decision.knowledge_requirements() {
+        if let Some(href) = knowledge_requirement.required_knowledge() {
+          required.push(href.into());
+        }
+      }
+    }
+  }
+  for business_knowledge_model in definitions.business_knowledge_models() {
+    if let Some(id) = business_knowledge_model.id() {
+      let required = requirements.entry(id.as_str()).or_default();
+      for knowledge_requirement in business_knowledge_model.knowledge_requirements() {
+        if let Some(href) = knowledge_requirement.required_knowledge() {
+          required.push(href.into());
+        }
+      }
+    }
+  }
+  for decision_service in definitions.decision_services() {
+    if let Some(id) = decision_service.id() {
+      let required = requirements.entry(id.as_str()).or_default();
+      // a decision service evaluates its input, encapsulated and output decisions
+      let evaluated_decisions = decision_service
+        .input_decisions()
+        .iter()
+        .chain(decision_service.encapsulated_decisions())
+        .chain(decision_service.output_decisions());
+      for href in evaluated_decisions {
+        required.push(href.into());
+      }
+    }
+  }
+  if let Some(id) = find_cycle(&requirements) {
+    return Err(err_cyclic_requirements(id));
+  }
+  // type references between item definitions, by name
+  let mut references: HashMap<&str, Vec<&str>> = HashMap::new();
+  for item_definition in definitions.item_definitions() {
+    let referenced = references.entry(item_definition.name()).or_default();
+    let mut pending: Vec<&ItemDefinition> = vec![item_definition];
+    while let Some(current) = pending.pop() {
+      if let Some(type_ref) = current.type_ref() {
+        // names of built-in types never refer to item definitions
+        if super::type_ref_to_feel_type(type_ref).is_none() {
+          referenced.push(type_ref.as_str());
+        }
+      }
+      pending.extend(current.item_components());
+    }
+  }
+  if let Some(name) = find_cycle(&references) {
+    return Err(err_cyclic_item_definitions(name));
+  }
+  Ok(())
+}
+
+/// Returns a node that lies on a cycle or depends on one, `None` when the graph is acyclic.
+/// Edges leading to unknown nodes are ignored.
+fn find_cycle<'a>(graph: &HashMap<&'a str, Vec<&'a str>>) -> Option<&'a str> {
+  // number of not yet resolved dependencies of each node
+  let mut unresolved: HashMap<&str, usize> = HashMap::new();
+  // nodes that depend on the key
+  let mut dependants: HashMap<&str, Vec<&str>> = HashMap::new();
+  for (node, targets) in graph {
+    let known_targets = targets.iter().filter(|target| graph.contains_key(*target));
+    unresolved.insert(node, known_targets.clone().count());
+    for target in known_targets {
+      dependants.entry(target).or_default().push(node);
+    }
+  }
+  // repeatedly resolve the nodes that have no unresolved dependencies left
+  let mut resolved: Vec<&str> = unresolved.iter().filter(|(_, count)| **count == 0).map(|(node, _)| *node).collect();
+  while let Some(node) = resolved.pop() {
+    unresolved.remove(node);
+    for dependant in dependants.get(node).into_iter().flatten() {
+      if let Some(count) = unresolved.get_mut(dependant) {
+        *count -= 1;
+        if *count == 0 {
+          resolved.push(dependant);
+        }
+      }
+    }
+  }
+  unresolved.keys().min().copied()
+}
